@@ -3,6 +3,7 @@
 verus! {
 //@ set CONFIG_EXTRA ,max_line_length,truncation_symbol
 //@ include prelude/sm_env.rs
+//@ broadcast vax::vax_group rax::rax_group r2x_group otx_group axiom_head_whole axiom_cow_ref_str
 
 // ---- uninterpreted string functions: only the identity of their arguments matters ----
 /// `&s[a..]` and `&s[..b]` as functions of the string and the byte offset (this vstd build gives
@@ -33,6 +34,33 @@ pub fn verif_truncate_str_to_string(s: &str, display_width: usize, tail: &str) -
 pub fn strip_ansi_codes(s: &str) -> (r: String) ensures r@ == strip_spec(s@) { unimplemented!() }
 pub mod ansi { pub use crate::{measure_text_width, strip_ansi_codes}; }
 
+
+/// `String::from_utf8` / `String::from_utf8_lossy` (R3): whether the bytes are UTF-8 and what they decode to; uninterpreted
+pub uninterp spec fn utf8_spec(b: Seq<u8>) -> Option<Seq<char>>;
+pub uninterp spec fn lossy_spec(b: Seq<u8>) -> Seq<char>;
+#[verifier::external_body]
+pub fn verif_from_utf8(b: &[u8]) -> (r: Result<String, ()>)
+    ensures match r { Ok(s) => utf8_spec(b@) == Some(s@), Err(_) => utf8_spec(b@) is None },
+{ unimplemented!() }
+#[verifier::external_body]
+pub fn verif_from_utf8_lossy<'a>(b: &'a [u8]) -> (r: Cow<'a, str>)
+    ensures cow_view(&r) == lossy_spec(b@),
+{ unimplemented!() }
+/// utils/round_char_boundary.rs floor_char_boundary (copied from std; unsafe): ASSUMED contract - the largest char boundary <= index
+#[verifier::external_body]
+pub fn floor_char_boundary(s: &str, index: usize) -> (r: usize)
+    ensures r == floor_spec(s@, index), r <= s.spec_bytes().len(), index >= s.spec_bytes().len() ==> r == s.spec_bytes().len(),
+{ unimplemented!() }
+/// what a line that is not valid UTF-8 becomes: its lossy decoding, cut (without a mark) only by a POSITIVE maximum length
+pub open spec fn ingest_lossy_spec(l: Seq<char>, config: &Config) -> Seq<char> {
+    if config.max_line_length > 0 { head_spec(l, floor_spec(l, config.max_line_length) as int) } else { l }
+}
+/// the largest character boundary of s that is <= index (all of s when index is beyond its end)
+pub uninterp spec fn floor_spec(s: Seq<char>, index: usize) -> usize;
+/// ASSUMED: the whole string is its own prefix
+pub broadcast axiom fn axiom_head_whole(s: Seq<char>)
+    ensures #[trigger] head_spec(s, encode_utf8(s).len() as int) == s;
+
 /// The only changes `ingest_line_utf8` may make to the raw line: drop the LAST carriage return when
 /// nothing visible follows it; then, beyond the maximum length (and not for `@@`/`{` lines), truncate.
 pub open spec fn cr_removed_spec(r0: Seq<char>) -> Seq<char> {
@@ -60,6 +88,15 @@ impl<'a> StateMachine<'a> {
     //@rewrite <<<&self.raw_line[cr_index + 1..] )>>> => <<<verif_str_from(&self.raw_line, cr_index + 1) )>>>
     //@rewrite <<<ansi::truncate_str( &self.raw_line, self.config.max_line_length, &self.config.truncation_symbol, ) .to_string()>>> => <<<verif_truncate_str_to_string(&self.raw_line, self.config.max_line_length, &self.config.truncation_symbol)>>>
     //@before <<<if let Some(cr_index)>>>| proof { reveal_strlit(""); }
+
+    // ---- ingest_line: the bytes of an input line; a line that is not valid UTF-8 is decoded lossily
+    //@ fn src/delta.rs StateMachine::ingest_line
+    //@| ensures final(self).state == old(self).state && final(self).painter == old(self).painter && final(self).config == old(self).config,
+    //@|         utf8_spec(raw_line_bytes@) matches Some(l) ==> final(self).raw_line@ == ingest_raw_spec(l, old(self).config) && final(self).line@ == strip_spec(final(self).raw_line@),
+    //@|         utf8_spec(raw_line_bytes@) is None ==> final(self).raw_line@ == ingest_lossy_spec(lossy_spec(raw_line_bytes@), old(self).config) && final(self).line@ == final(self).raw_line@,  // @C01,C03,C04:a.line.that.is.not.utf8.is.kept.in.full.unless.a.positive.maximum.length.cuts.it
+    //@rewrite <<<String::from_utf8(raw_line_bytes.to_vec())>>> => <<<verif_from_utf8(raw_line_bytes)>>>
+    //@rewrite <<<String::from_utf8_lossy(raw_line_bytes)>>> => <<<verif_from_utf8_lossy(raw_line_bytes)>>>
+    //@rewrite <<<raw_line[..truncated_len].to_string()>>> => <<<verif_str_to(&raw_line, truncated_len).to_string()>>>
 }
 
 } // verus!
